@@ -269,6 +269,10 @@ impl Recv {
                 .pending_recv
                 .push_back(&mut self.buffer, Event::Headers(message));
             stream.notify_recv();
+            if stream.state.is_recv_end_stream() {
+                // No more push promises can arrive: wake a `poll_pushed` waiter.
+                stream.notify_push();
+            }
 
             // Only servers can receive a headers frame that initiates the stream.
             // This is verified in `Streams` before calling this function.
@@ -439,6 +443,7 @@ impl Recv {
             .pending_recv
             .push_back(&mut self.buffer, Event::Trailers(trailers));
         stream.notify_recv();
+        stream.notify_push();
 
         Ok(())
     }
@@ -736,6 +741,9 @@ impl Recv {
                 proto_err!(conn: "recv_data: failed to transition to closed state; stream={:?}", stream.id);
                 return Err(Error::library_go_away(Reason::PROTOCOL_ERROR));
             }
+
+            // No more push promises can arrive: wake a `poll_pushed` waiter.
+            stream.notify_push();
         }
 
         // Received a frame, but no one cared about it. fix issue#648
